@@ -216,6 +216,11 @@ class StmtExec(Exec):
                 else:
                     raise Unsupported("missing arg %s for %s (line %d)" % (p, callee.key, node.lineno))
             env[p] = coerce(env[p], ty)
+        # ghost variables of the callee: its postcondition holds for every value, in particular for the caller's variable of the
+        # same name (else for an arbitrary fresh one)
+        for gname, gty in (getattr(callee, "ghost", None) or {}).items():
+            gv = st.env.get(gname)
+            env[gname] = gv if (isinstance(gv, V) and gv.ty is gty) else fresh(gty, "ghost_" + gname)
         cst = State(dict(env), list(st.pc))
         for p in list(env):
             cst.env["old:" + p] = env[p]
